@@ -75,6 +75,14 @@ def verdict(mut, opts, all_cols):
         if sel == 'all':
             return 'fail', 'a column whose type is checked is missing (renamed)'
         return 'unspecified', 'column missing from actual but excluded from the type check'
+    if kind == 'retype_family':
+        # numeric actual column against a datetime / text (non-object) reference column
+        sel = selected(ct, all_cols, [col])
+        if sel == 'all':
+            return 'fail', 'numeric against datetime/text column: a type difference at every matching level'
+        if sel == 'none' and selected(cd, all_cols, [col]) == 'none':
+            return 'pass', 'type and values of the retyped column are not checked'
+        return 'unspecified', 'values of a retyped column'
     if kind == 'retype':
         sel = selected(ct, all_cols, [col])
         if sel == 'none':
